@@ -1,5 +1,6 @@
 #![allow(dead_code, unused_imports, unexpected_cfgs, static_mut_refs)]
 #![cfg_attr(kani, feature(allocator_api))]
+#![recursion_limit = "512"]
 #[cfg(kani)]
 pub mod stubs;
 #[cfg(kani)]
@@ -18,6 +19,8 @@ pub mod c08;
 pub mod c14;
 #[cfg(kani)]
 pub mod c16;
+#[cfg(kani)]
+pub mod full;
 
 // written by /verif/check into a scratch copy of this crate when a counterexample is replayed natively
 #[cfg(all(kani, verif_playback))]
